@@ -94,6 +94,9 @@ type Obs struct {
 	// object), 2 Err() == nil, 3 Err() != nil, 4 Header() error == nil, 5 Header() error != nil
 	Resp    []int64  `json:"resp,omitempty"`
 	RespTok []uint64 `json:"resp_tok,omitempty"`
+	// cut mode: FullyScannedBytes / PreviousFullyScannedBytes read after Scan returned false
+	EndFSB  int64 `json:"end_fsb,omitempty"`
+	EndPFSB int64 `json:"end_pfsb,omitempty"`
 	// AllocMiB: MiB allocated from the Go heap during the scan (Job.Alloc), which includes the
 	// 32 MiB read buffer of every Start and the copy of whatever a C inflater produced
 	AllocMiB int64 `json:"alloc_mib,omitempty"`
@@ -215,7 +218,7 @@ func setFlags(s *osmpbf.Scanner, j *Job) {
 	}
 }
 
-func scanAll(data []byte, j *Job) ([]uint64, error) {
+func scanAll(data []byte, j *Job) ([]uint64, error, [2]int64) {
 	s := newScanner(data, j)
 	if j.HeaderFirst {
 		s.Header() // a caller that only logs the header error and goes on to the Scan loop
@@ -225,8 +228,10 @@ func scanAll(data []byte, j *Job) ([]uint64, error) {
 		objs = append(objs, Tok(s.Object()))
 	}
 	err := s.Err()
+	// the two offsets once Scan has returned false (also after a failed Scan)
+	end := [2]int64{s.FullyScannedBytes(), s.PreviousFullyScannedBytes()}
 	s.Close()
-	return objs, err
+	return objs, err, end
 }
 
 func runUnit(j *Job, u int) Obs {
@@ -241,8 +246,9 @@ func runUnit(j *Job, u int) Obs {
 		if j.Alloc {
 			runtime.ReadMemStats(&m0)
 		}
-		objs, err := scanAll(data, j)
+		objs, err, end := scanAll(data, j)
 		o.Objs, o.Err, o.ErrText = objs, errClass(err), errText(err)
+		o.EndFSB, o.EndPFSB = end[0], end[1]
 		if j.Alloc {
 			runtime.ReadMemStats(&m1)
 			o.AllocMiB = int64((m1.TotalAlloc - m0.TotalAlloc) >> 20)
@@ -346,7 +352,7 @@ func runUnit(j *Job, u int) Obs {
 			o.ResumedErr = 2
 		}
 		if pfsb >= 0 && pfsb <= int64(len(j.Data)) {
-			r, err := scanAll(j.Data[pfsb:], j)
+			r, err, _ := scanAll(j.Data[pfsb:], j)
 			o.PrevResumed, o.PrevResumedErr = r, errClass(err)
 		} else {
 			o.PrevResumedErr = 2
